@@ -415,6 +415,13 @@ ND_OS = {"listdir", "walk", "scandir", "getpid", "urandom", "environ", "getenv"}
 ND_DT = {"now", "utcnow", "today"}
 
 
+LOCAL_TIME_CALLS = {"astimezone", "localtime", "mktime", "fromtimestamp", "tzset", "ctime", "asctime"}
+UNORDERED_CALLS = {"as_completed", "imap_unordered", "wait"}
+POOL_CALLS = {"ThreadPoolExecutor", "ProcessPoolExecutor", "Pool", "ThreadPool", "Thread", "Process", "gather", "create_task", "TaskGroup"}
+OWNING_WRAPPERS = {"TextIOWrapper", "BufferedReader", "BufferedRandom", "BufferedWriter", "BufferedRWPair", "StreamReader",
+                   "StreamReaderWriter", "closing"}
+
+
 def inventory_nondet(pkg: Pkg):
     out = []
     for rel, tree in pkg.mods.items():
@@ -435,6 +442,30 @@ def inventory_nondet(pkg: Pkg):
                 expr = getattr(n, "_parent", None) if kind else None
                 if kind and not (isinstance(expr, ast.Call) and expr.func is n):
                     expr = n
+            if kind is None and isinstance(n, ast.Call):
+                f = n.func
+                nm = f.attr if isinstance(f, ast.Attribute) else f.id if isinstance(f, ast.Name) else ""
+                fn = pkg.enclosing(n, (ast.FunctionDef, ast.AsyncFunctionDef))
+                if nm in LOCAL_TIME_CALLS:
+                    # local wall-clock / host time zone: x.astimezone(..) is fine only right after .replace(tzinfo=..)
+                    aware = nm == "astimezone" and isinstance(f, ast.Attribute) and isinstance(f.value, ast.Call) \
+                        and isinstance(f.value.func, ast.Attribute) and f.value.func.attr == "replace" \
+                        and any(k.arg == "tzinfo" for k in f.value.keywords)
+                    tzarg = nm == "fromtimestamp" and (len(n.args) > 1 or any(k.arg == "tz" for k in n.keywords))
+                    if not (aware or tzarg):
+                        out.append({"file": rel, "func": pkg.func_name(n), "line": n.lineno, "kind": f"local-time:{nm}()",
+                                    "sink": "SLog" if in_logger_call(n) else "SResult"})
+                    continue
+                if nm in UNORDERED_CALLS:
+                    out.append({"file": rel, "func": pkg.func_name(n), "line": n.lineno, "kind": f"completion-order:{nm}()", "sink": "SResult"})
+                    continue
+                if nm in POOL_CALLS:
+                    scope = fn if fn is not None else tree
+                    unordered = any(isinstance(c, ast.Call) and (getattr(c.func, "attr", None) or getattr(c.func, "id", "")) in UNORDERED_CALLS
+                                    for c in ast.walk(scope))
+                    out.append({"file": rel, "func": pkg.func_name(n), "line": n.lineno, "kind": f"concurrency:{nm}",
+                                "sink": "SResult" if unordered else "SOrderKept"})
+                    continue
             if kind is None:
                 continue
             out.append({"file": rel, "func": pkg.func_name(n), "line": n.lineno, "kind": kind,
@@ -515,9 +546,20 @@ def inventory_stream(pkg: Pkg):
                     if meth == "getbuffer" and isinstance(call, ast.Call) and isinstance(outer, ast.Attribute) and outer.attr == "nbytes":
                         meth = "getbuffer().nbytes"       # size only; the writable view is dropped at once
                     out.append({"file": rel, "func": pkg.func_name(n), "line": n.lineno, "method": meth})
+                if isinstance(n, ast.withitem) and isinstance(n.context_expr, ast.Name) and n.context_expr.id in names:
+                    out.append({"file": rel, "func": pkg.func_name(n.context_expr), "line": n.context_expr.lineno, "method": "with:__exit__ closes"})
                 if isinstance(n, ast.Call):
                     f = n.func
                     fname = f.attr if isinstance(f, ast.Attribute) else f.id if isinstance(f, ast.Name) else ""
+                    if fname in OWNING_WRAPPERS and any(isinstance(a, ast.Name) and a.id in names for a in list(n.args) + [k.value for k in n.keywords]):
+                        # the wrapper closes the wrapped object when it is closed or collected, unless detach()ed
+                        par = getattr(n, "_parent", None)
+                        bound = par.targets[0].id if isinstance(par, ast.Assign) and isinstance(par.targets[0], ast.Name) else None
+                        detached = bound is not None and any(
+                            isinstance(c, ast.Call) and isinstance(c.func, ast.Attribute) and c.func.attr == "detach"
+                            and isinstance(c.func.value, ast.Name) and c.func.value.id == bound for c in ast.walk(fn))
+                        if not detached:
+                            out.append({"file": rel, "func": pkg.func_name(n), "line": n.lineno, "method": f"wrapped-by:{fname} (not detached)"})
                     if fname in ("ZipFile", "open", "TarFile") and any(isinstance(a, ast.Name) and a.id in names for a in n.args):
                         mode = None
                         if len(n.args) > 1 and isinstance(n.args[1], ast.Constant):
@@ -1521,6 +1563,92 @@ def gen_html(rng, names):
             "<table><tr><th>a</th><th>b</th></tr><tr><td>1</td><td>2</td></tr></table></body></html>").encode()
 
 
+def gen_mbox(rng, names):
+    """mbox with 2-4 messages: Date header present (numeric zone / named zone), absent, or unparsable; the 'From '
+    separator always carries an asctime stamp (no zone)."""
+    out = []
+    for k in range(rng.randint(2, 4)):
+        stamp = f"{rng.choice(['Sun', 'Mon', 'Tue'])} {rng.choice(['Dec', 'Jan', 'Jul'])} {rng.randint(10, 28)} " \
+                f"{rng.randint(0, 23):02d}:{rng.randint(0, 59):02d}:00 {rng.choice([2024, 2025])}"
+        date = ("", "Date: Sun, 28 Dec 2025 23:30:00 +0100\n", "Date: yesterday afternoon\n", "Date: Mon, 1 Jul 2024 08:15:00 EST\n",
+                "Date: 28 Dec 2025 23:30:00\n")[(k + rng.randrange(5)) % 5]
+        out.append(f"From user{k}@example.org {stamp}\nFrom: {rng.choice(names)} <u{k}@example.org>\nTo: list@example.org\n"
+                   f"Subject: {rng.choice(names)} {k}\n{date}Message-ID: <m{k}@example.org>\nContent-Type: text/plain; charset=utf-8\n\n"
+                   f"Body of message {k}: {' '.join(rng.sample(names, 3))}\n\n")
+    return "".join(out).encode("utf-8")
+
+
+def gen_eml(rng, names, attach_sizes=(40,)):
+    """multipart/mixed mail with a text body and text-family attachments of the given sizes (+ a csv)"""
+    import base64
+    b = "=_c06_boundary"
+    date = rng.choice(["Date: Sun, 28 Dec 2025 23:30:00 +0100\r\n", "", "Date: Mon, 1 Jul 2024 08:15:00 -0500\r\n"])
+    parts = [f"--{b}\r\nContent-Type: text/plain; charset=utf-8\r\n\r\nHello {rng.choice(names)},\r\nsee attachments.\r\n"]
+    for k, n in enumerate(attach_sizes):
+        line = f"attachment {k} {rng.choice(names)} 0123456789 abcdefghij\n".encode()
+        data = (line * (n // len(line) + 1))[:n]
+        ext = ("txt", "md", "csv", "json")[k % 4] if n < 100000 else "txt"
+        parts.append(f"--{b}\r\nContent-Type: text/plain; name=\"a{k}.{ext}\"\r\nContent-Disposition: attachment; filename=\"a{k}.{ext}\"\r\n"
+                     f"Content-Transfer-Encoding: base64\r\n\r\n" + base64.encodebytes(data).decode().replace("\n", "\r\n"))
+    head = (f"From: {rng.choice(names)} <a@example.org>\r\nTo: b@example.org\r\nSubject: generated {rng.randint(1, 99)}\r\n{date}"
+            f"Message-ID: <g{rng.randint(1, 9999)}@example.org>\r\nMIME-Version: 1.0\r\nContent-Type: multipart/mixed; boundary=\"{b}\"\r\n\r\n")
+    return (head + "".join(parts) + f"--{b}--\r\n").encode("utf-8")
+
+
+def gen_archive(rng, names, kind, n):
+    """archive with n supported members whose cost DEcreases (the first submitted member is the slowest), so that any
+    completion-order / scheduling dependence of the result order shows up"""
+    import tarfile
+    members = []
+    for i in range(n):
+        size = max(30, 400_000 >> (2 * i)) if i % 2 == 0 else 60 + i
+        ext = ("txt", "csv", "md", "json", "html")[i % 5]
+        word = rng.choice(names)
+        if ext == "html":
+            body = ("<html><body>" + f"<p>{xml_esc(word)} {i}</p>" * max(1, size // 40) + "</body></html>").encode()
+        elif ext == "json":
+            body = json.dumps({"k": [f"{word} {i}"] * max(1, size // 20)}).encode()
+        else:
+            body = (f"{word} member {i}, column b, 3\n" * max(1, size // 30)).encode()
+        members.append((f"dir{i % 3}/m{i:02d}.{ext}", body))
+    if kind == "zip":
+        return make_zip(members)
+    buf = io.BytesIO()
+    with tarfile.open(fileobj=buf, mode={"tar": "w", "tar.gz": "w:gz"}[kind]) as tf:
+        for name, body in members:
+            ti = tarfile.TarInfo(name)
+            ti.size = len(body)
+            ti.mtime = 1_600_000_000
+            tf.addfile(ti, io.BytesIO(body))
+    data = buf.getvalue()
+    if kind == "tar.gz":      # gzip header carries a time stamp: zero it (bytes 4..8)
+        data = data[:4] + b"\x00\x00\x00\x00" + data[8:]
+    return data
+
+
+def size_boundaries(pkg, tier):
+    """Input sizes at which code may switch strategy: 2^16, 2^20, 2^22 and every integer constant between 4 KiB and
+    64 MiB that the extractor modules define (evaluated from the ast), each with its neighbours +-1."""
+    consts, skipped = set(), set()
+    for rel, tree in pkg.mods.items():
+        for n in ast.walk(tree):
+            tgt = n.targets[0] if isinstance(n, ast.Assign) and len(n.targets) == 1 else getattr(n, "target", None) if isinstance(n, ast.AnnAssign) else None
+            val = getattr(n, "value", None)
+            if isinstance(tgt, ast.Name) and tgt.id.lstrip("_").isupper() and val is not None:
+                try:
+                    v = eval(compile(ast.Expression(val), "<const>", "eval"), {"__builtins__": {}}, {})
+                except Exception:  # noqa
+                    continue
+                sizeish = any(w in tgt.id.upper() for w in ("SIZE", "THRESHOLD", "LIMIT", "BYTES", "MAX", "MIN", "CHUNK", "BUF", "LARGE")) \
+                    or v % 1024 == 0 if isinstance(v, int) else False
+                if isinstance(v, int) and not isinstance(v, bool) and sizeish and 4096 <= v <= (64 << 20):
+                    (consts if v <= (16 << 20 if tier == "thorough" else 6 << 20) else skipped).add(v)
+    sizes = {1 << 16, 1 << 20, 1 << 22}
+    for c in consts:
+        sizes |= {c - 1, c, c + 1}
+    return sorted(sizes), {"exercised": sorted(consts), "too_large_for_this_tier": sorted(skipped)}
+
+
 IMAGE_EXT = (".png", ".jpg", ".jpeg", ".gif", ".bmp", ".emf", ".wmf", ".tif", ".tiff")
 ZIP_EXT = {".docx", ".docm", ".xlsx", ".xlsm", ".pptx", ".pptm", ".odt", ".odp", ".ods", ".odg", ".epub"}
 TEXT_EXT = {".txt", ".md", ".csv", ".tsv", ".json", ".html", ".htm", ".eml", ".rtf"}
@@ -1542,6 +1670,20 @@ def gen_documents(ctx, resources, outdir):
         out[f"gen/page{k}.html"] = gen_html(rng, names)
     for k in range(ctx.n(6, 20)):
         out[f"gen/images{k}.pdf"] = gen_pdf(rng, k)
+    for k in range(ctx.n(3, 8)):
+        out[f"gen/box{k}.mbox"] = gen_mbox(rng, names)
+        out[f"gen/mail{k}.eml"] = gen_eml(rng, names, attach_sizes=[rng.choice([10, 200, 5000]) for _ in range(rng.randint(1, 3))])
+    for k, (kind, n) in enumerate([("zip", 3), ("zip", 9), ("zip", 14), ("tar", 10), ("tar.gz", 12), ("tar", 2)][: ctx.n(6, 6)]):
+        out[f"gen/pack{k}-{n}.{kind}"] = gen_archive(rng, names, kind, n)
+    # sizes at which code may switch strategy (plain-text family is cheap to pad; one mail with such an attachment)
+    sizes, consts = size_boundaries(Pkg(REPO), ctx.tier)
+    ctx.extra["size_boundaries"] = {"sizes": sizes, "constants_from_ast": consts}
+    line = "a line of plain text, columns, 0123456789\n".encode()
+    for i, n in enumerate(sizes):
+        ext = ("txt", "csv", "md")[i % 3]
+        out[f"gen/size{n}.{ext}"] = (line * (n // len(line) + 1))[:n]
+    big = [n for n in sizes if n >= (1 << 22)][:1] or sizes[-1:]
+    out["gen/mail-big-attachment.eml"] = gen_eml(rng, names, attach_sizes=[300] + big)
     pptx = sorted((q for q in resources.rglob("*.pptx") if "password" not in str(q)), key=lambda q: (q.stat().st_size, q.name))
     for k, q in enumerate(pptx[: ctx.n(2, 4)]):
         d = inject_pptx_formulas(q.read_bytes(), gen_omml(rng, rng.randint(3, 6)))
@@ -1809,8 +1951,15 @@ def digest_json(obj):
     return hashlib.sha256(json.dumps(obj.to_json(), sort_keys=True, default=repr).encode("utf-8", "surrogatepass")).hexdigest()
 
 
+def digest_json_safe(obj):
+    try:
+        return digest_json(obj)
+    except Exception as e:  # noqa   (a to_json() that starts raising after an observer call is a change, too)
+        return "to_json raises " + type(e).__name__ + ": " + str(e)[:80]
+
+
 IMAGE_ACCESSORS = ("get_bytes", "get_content_type", "get_caption", "get_description", "get_metadata")
-PSEUDO = tuple("images." + a for a in IMAGE_ACCESSORS) + ("tables.get_table", "tables.get_dim")
+PSEUDO = tuple("images." + a for a in IMAGE_ACCESSORS) + ("tables.get_table", "tables.get_dim", "attachments.iterate")
 
 
 def all_images(obj, probe=None):
@@ -1849,6 +1998,12 @@ def call_observer(obj, name, probe=None):
     """-> (canonical value, name to blame, state token before the call proper).  `images.<m>` / `tables.<m>` call
     accessor m on every image / table; gathering them is not part of the observed call."""
     probe = probe or (lambda: None)
+    if name == "attachments.iterate":
+        before = probe()
+        f = getattr(obj, "iterate_supported_attachments", None)
+        r = [type(x).__name__ + ":" + hashlib.sha256(json.dumps(x.to_json(), sort_keys=True, default=repr).encode("utf-8", "surrogatepass")).hexdigest()[:16]
+             for x in f()] if f else []
+        return r, f"{type(obj).__name__}.iterate_supported_attachments", before
     if "." in name:
         ts, m, blame, culprit = gather(obj, name, probe)
         if culprit:
@@ -1876,13 +2031,13 @@ def observer_sequence_oracle(obj, seq, label):
     for name in seq:
         blame = f"{type(obj).__name__}.{name}"
         try:
-            v, blame, _ = call_observer(obj, name, lambda: digest_json(obj))
+            v, blame, _ = call_observer(obj, name, lambda: digest_json_safe(obj))
         except Exception as e:  # noqa
             v = ("raises", type(e).__name__)
-        d = digest_json(obj)
+        d = digest_json_safe(obj)
         if d != d0:
             # this call wrote to the result: blame it, and start afresh (later differences are consequences)
-            bad.append((blame, "changes a later to_json()"))
+            bad.append((blame, "changes a later to_json()" + (f" ({d})" if d.startswith("to_json raises") else "")))
             d0 = d
             first = {}
             continue
@@ -1965,6 +2120,7 @@ def worker_main(argv):
     if only:
         inputs.sort(key=lambda x: only.index(x[1].suffix.lower()))      # stable: path order inside one extension
     res = {rel: [] for rel, _ in inputs}
+    reuse = os.environ.get("C06_REUSE") == "1"
     for order in (inputs, list(reversed(inputs))):
         for rel, p in order:
             data = p.read_bytes()
@@ -1976,10 +2132,23 @@ def worker_main(argv):
                         "digest": hashlib.sha256(json.dumps(js, sort_keys=True, default=repr).encode("utf-8", "surrogatepass")).hexdigest()}
             except Exception as e:  # noqa
                 run_ = {"ok": False, "types": [], "leaves": [], "digest": "EXC:" + type(e).__name__ + ":" + str(e)[:200]}
-            run_["input_same"] = (buf.getvalue() == data)
-            if not run_["input_same"]:
-                after = buf.getvalue()
-                run_["input_after"] = {"len": len(after), "sha256": hashlib.sha256(after).hexdigest()[:16]}
+            if buf.closed:
+                run_["input_same"] = False
+                run_["input_after"] = {"closed": True}
+            else:
+                run_["input_same"] = (buf.getvalue() == data)
+                if not run_["input_same"]:
+                    after = buf.getvalue()
+                    run_["input_after"] = {"len": len(after), "sha256": hashlib.sha256(after).hexdigest()[:16]}
+                elif reuse and order is inputs and run_["ok"]:
+                    # the caller may extract again from the SAME buffer object (position wherever the extractor left it)
+                    try:
+                        js2 = [o.to_json() for o in get_extractor(str(p))(buf, str(p))]
+                        d2 = hashlib.sha256(json.dumps(js2, sort_keys=True, default=repr).encode("utf-8", "surrogatepass")).hexdigest()
+                    except Exception as e:  # noqa
+                        d2 = "EXC:" + type(e).__name__ + ":" + str(e)[:120]
+                    if d2 != run_["digest"]:
+                        run_["reuse"] = d2[:80]
             res[rel].append(run_)
     Path(argv[0]).write_text(json.dumps(res))
 
@@ -2055,6 +2224,37 @@ def strip_correspondence(ctx, gen_root):
     ctx.obligation("correspondence:PdfImage.color_space==strip_ids(str(raw /ColorSpace)) on generated PDFs", ok and not failing,
                    (f"{len(failing)} of {len(cases)} disagree, first: {infos[failing[0]] if failing else ''} " + log[:300]))
     ctx.extra["strip_corr_cases"] = len(cases)
+
+
+def environment_sweep(ctx, resources, gen_root, generated):
+    """common.env_sweep over a sample of inputs: every well-formed generated document (mails, mbox, archives with many
+    members, formulas, pictures ...; size files up to 1 MiB) and the small fixtures.  Result = types + digest of the ordered
+    list of to_json() of everything the extractor yields (absolute paths, so that the cwd variant is fair)."""
+    import common
+    from sharepoint2text.parsing.router import get_extractor, is_supported_file
+    cases = []
+    for g in generated:
+        f = gen_root / g
+        if g.startswith("gen/") and is_supported_file(str(f)) and f.stat().st_size <= (1 << 20) + 1:
+            cases.append(str(f))
+    fx = sorted((q for q in resources.rglob("*") if q.is_file() and is_supported_file(str(q)) and "password" not in str(q)
+                 and q.stat().st_size <= 120_000), key=lambda q: (q.suffix, q.stat().st_size, q.name))
+    seen = {}
+    for q in fx:                         # at most 3 per extension
+        if seen.setdefault(q.suffix.lower(), 0) < 3:
+            seen[q.suffix.lower()] += 1
+            cases.append(str(q))
+    cases = cases[: ctx.n(140, 400)]
+
+    def fn(path):
+        data = Path(path).read_bytes()
+        objs = list(get_extractor(path)(io.BytesIO(data), path))
+        js = [o.to_json() for o in objs]
+        return (tuple(type(o).__name__ for o in objs),
+                hashlib.sha256(json.dumps(js, sort_keys=True, default=repr).encode("utf-8", "surrogatepass")).hexdigest()[:20])
+
+    common.env_sweep(ctx, "extract(bytes,path)->to_json", fn, cases,
+                     describe=lambda c: c.replace(str(gen_root), "@1").replace(str(resources), "@0"))
 
 
 def stream_oracle(ctx):
@@ -2169,7 +2369,7 @@ def run(ctx):
         "C06_input_untouched_serialize",
         "C06_input_untouched_validate_zip", "C06_readonly_ops_keep_buffer", "C06_history_independent",
         "C06_history_dependent_refuted", "C06_content_type_global_db_refuted", "C06_content_type_private_db_independent",
-        "C06_strip_reader_id_independent", "C06_strip_generation_zero_only_refuted"])
+        "C06_strip_reader_id_independent", "C06_strip_generation_zero_only_refuted", "C06_close_would_lose_buffer"])
     ctx.prove("C06/Inst.v", ["Gen/C06Sites.vo", "C06/Corr.vo"], expected=["C06_set_sites_neutral"])
     ctx.prove("C06/InstNd.v", ["Gen/C06Sites.vo"], expected=["C06_nd_sites_no_result_sink"])
     ctx.prove("C06/InstPure.v", ["Gen/C06Sites.vo"], expected=["C06_input_stream_readonly"])
@@ -2216,7 +2416,8 @@ def run(ctx):
     def rand_seq():
         return [rng.choice(OBSERVERS + PSEUDO) for _ in range(rng.randint(2, 7))] + ["to_json"]
 
-    FIXED_SEQ = ["to_json", "images.get_bytes", "to_json", "iterate_units", "images.get_bytes", "to_json"]
+    FIXED_SEQ = ["to_json", "images.get_bytes", "to_json", "iterate_units", "images.get_bytes", "to_json", "attachments.iterate",
+                 "to_json", "attachments.iterate", "to_json"]
 
     def observe(o, seq, where, replay):
         for blame, kind in observer_sequence_oracle(o, seq, where):
@@ -2281,7 +2482,8 @@ def run(ctx):
     all_exts = sorted({p.suffix.lower() for p in list(resources.rglob("*")) + list(gen_root.rglob("*"))
                        if p.is_file() and is_supported_file(str(p))})
     with tempfile.TemporaryDirectory(dir="/var/tmp") as td:
-        results = spawn_workers(ctx, [(sd, {"PYTHONHASHSEED": sd}) for sd in seeds], [resources, gen_root], Path(td))
+        results = spawn_workers(ctx, [(sd, {"PYTHONHASHSEED": sd, "C06_REUSE": int(i == 0)}) for i, sd in enumerate(seeds)],
+                                [resources, gen_root], Path(td))
         mark("seed-workers")
         # process HISTORY: every input also in a fresh process that touches only inputs of the same extension
         # (nothing else imported / extracted before) -- compared with the extraction after everything else
@@ -2311,6 +2513,10 @@ def run(ctx):
             r0 = base[rel][0]
             origin = "generated input" if rel.startswith("@1/") else "fixture"
             for run_ in base[rel]:
+                if run_.get("reuse"):
+                    ctx.finding(f"buffer-reuse:{Path(rel).suffix.lower()}",
+                                f"a second extraction from the SAME BytesIO object gives a different result for {origin} {rel}: {run_['reuse']}",
+                                {"input": rel, "bytes": input_bytes(rel)})
                 if not run_["input_same"]:
                     ctx.finding(f"input-modified:{Path(rel).suffix.lower()}",
                                 f"extracting {origin} {rel} changed the caller's BytesIO content (now {run_.get('input_after')})",
@@ -2382,6 +2588,9 @@ def run(ctx):
         ctx.extra["inputs_per_worker"] = len(base)
         ctx.extra["hash_seeds"] = [s for s, _ in results]
     strip_correspondence(ctx, gen_root)
+    mark("strip-correspondence")
+    environment_sweep(ctx, resources, gen_root, generated)
+    mark("env-sweep")
     td_obj.cleanup()
 
     mark("mime-workers")
